@@ -3,6 +3,10 @@
 //!
 //! ops:   Q <lat> <lon>                 query coordinate (fixed point, 1e-6 degrees)
 //!        E <id> <lat> <lon>            one element, in the order handed to from_elements
+//!        X <id> <lat> <lon> <lat> <lon> ...   an element with several sites (a user-defined RTreeElement with real
+//!                                      extent): center() = first site, bbox() = box of all sites, distance_to =
+//!                                      minimum over the sites. A case with an X line runs RTree<Multi>, all other
+//!                                      cases the stock RTree<(FPCoordinate, PartitionID)>
 //! obs:   P dist <id>:<bits> ...        distance_to(query) of every element (f64 bit patterns, decimal), input order
 //!        F order <id> ...              ids after the stable sort by the real zorder_cmp (what from_elements does first)
 //!        F levels <end> ...            verif_nodes(): level ends
@@ -221,6 +225,71 @@ fn d7_case(rng: &mut Rng, n: usize) -> Case {
     make_case("d7-long-box", q, &pts)
 }
 
+/// elements with real extent (two or three sites) mixed among point-like ones; the query lies inside an
+/// extended element's box but off its sites, exactly on a site, or anywhere (as for the other families).
+/// An iterator that derives a candidate's distance from the element's box instead of `distance_to`
+/// reports such an element too near.
+fn extended_case(rng: &mut Rng, n: usize) -> Case {
+    let r = random_region(rng);
+    let shape = *rng.pick(&[Shape::Uniform, Shape::Uniform, Shape::Clustered, Shape::Grid, Shape::CollinearLat]);
+    let pts = points(rng, shape, n, r);
+    let h = (r.lat1 - r.lat0).max(20);
+    let w = (r.lon1 - r.lon0).max(20);
+    let every = *rng.pick(&[2u64, 3, 5, 20]); // share of extended elements
+    let mut sites: Vec<Vec<Pt>> = Vec::with_capacity(n);
+    for p in &pts {
+        let mut v = vec![*p];
+        if rng.chance(1, every) {
+            let k = if rng.chance(1, 3) { 2 } else { 1 };
+            let ext_lat = *rng.pick(&[0i64, 7, 1_000, h / 10, h / 2]);
+            let ext_lon = *rng.pick(&[0i64, 7, 1_000, w / 10, w / 2]);
+            for _ in 0..k {
+                let (mut dl, mut dn) = (rng.range(-ext_lat, ext_lat), rng.range(-ext_lon, ext_lon));
+                if dl == 0 && dn == 0 {
+                    dl = 3;
+                    dn = -2;
+                }
+                v.push(clamp_pt(p.0 as i64 + dl, p.1 as i64 + dn));
+            }
+        }
+        sites.push(v);
+    }
+    let ext: Vec<usize> = (0..n).filter(|&i| sites[i].len() > 1).collect();
+    let kind = rng.below(4);
+    let q = if ext.is_empty() || kind == 3 {
+        let qk = *rng.pick(&ALL_Q);
+        query(rng, qk, &pts, r)
+    } else {
+        let e = &sites[*rng.pick(&ext)];
+        if kind == 0 {
+            // exactly on a site (often not the centre)
+            *rng.pick(e)
+        } else {
+            // inside the element's box, off its sites if the box has room
+            let (la0, la1) = (e.iter().map(|p| p.0).min().unwrap() as i64, e.iter().map(|p| p.0).max().unwrap() as i64);
+            let (lo0, lo1) = (e.iter().map(|p| p.1).min().unwrap() as i64, e.iter().map(|p| p.1).max().unwrap() as i64);
+            let mut cand = clamp_pt(rng.range(la0, la1), rng.range(lo0, lo1));
+            for _ in 0..8 {
+                if !e.contains(&cand) {
+                    break;
+                }
+                cand = clamp_pt(rng.range(la0, la1), rng.range(lo0, lo1));
+            }
+            cand
+        }
+    };
+    let mut c = Case::new("extended-elements");
+    c.op(format!("Q {} {}", q.0, q.1));
+    for (i, v) in sites.iter().enumerate() {
+        if v.len() == 1 {
+            c.op(format!("E {} {} {}", i, v[0].0, v[0].1));
+        } else {
+            c.op(format!("X {} {}", i, join(v.iter().map(|p| format!("{} {}", p.0, p.1)), " ")));
+        }
+    }
+    c
+}
+
 fn generate(rng: &mut Rng, tier: Tier, cases: &mut Vec<Case>) {
     let thorough = tier == Tier::Thorough;
     // --- structural boundaries of the bulk loader, every query position
@@ -286,6 +355,16 @@ fn generate(rng: &mut Rng, tier: Tier, cases: &mut Vec<Case>) {
         let q = query(rng, qk, &pts, r);
         cases.push(make_case("multi-group-degenerate", q, &pts));
     }
+    // --- user-defined elements with extent
+    let (n_ext_small, n_ext_big) = if thorough { (800, 160) } else { (80, 16) };
+    for _ in 0..n_ext_small {
+        let n = 1 + rng.below(60) as usize;
+        cases.push(extended_case(rng, n));
+    }
+    for i in 0..n_ext_big {
+        let n = if i % 4 == 0 { *rng.pick(&[900usize, 901, 1800, 1801]) } else { 901 + rng.below(1500) as usize };
+        cases.push(extended_case(rng, n));
+    }
     // --- D7: long boxes with the query beside them
     let n_d7 = if thorough { 80 } else { 10 };
     for _ in 0..n_d7 {
@@ -326,23 +405,58 @@ fn box_of(c: &[i32; 4]) -> BoundingBox {
     BoundingBox::from_coordinates(&[FPCoordinate::new(c[0], c[1]), FPCoordinate::new(c[2], c[3])])
 }
 
+/// a user-defined element with extent: several sites, the first one is the centre
+#[derive(Clone, Debug)]
+struct Multi {
+    sites: Vec<FPCoordinate>,
+    id: u32,
+}
+
+impl RTreeElement for Multi {
+    fn bbox(&self) -> BoundingBox {
+        BoundingBox::from_coordinates(&self.sites)
+    }
+    fn distance_to(&self, coordinate: &FPCoordinate) -> f64 {
+        self.sites.iter().map(|s| s.distance_to(coordinate)).fold(f64::INFINITY, f64::min)
+    }
+    fn center(&self) -> &FPCoordinate {
+        &self.sites[0]
+    }
+}
+
 fn execute(c: &Case, obs: &mut Vec<String>) {
     let mut q = FPCoordinate::new(0, 0);
-    let mut elems: Vec<(FPCoordinate, PartitionID)> = Vec::new();
+    let mut elems: Vec<Multi> = Vec::new();
+    let mut extended = false;
     for l in &c.ops {
         let t: Vec<&str> = l.split_whitespace().collect();
         match t[0] {
             "Q" => q = FPCoordinate::new(t[1].parse().unwrap(), t[2].parse().unwrap()),
-            "E" => elems.push((FPCoordinate::new(t[2].parse().unwrap(), t[3].parse().unwrap()), PartitionID(t[1].parse().unwrap()))),
+            "E" => elems.push(Multi { sites: vec![FPCoordinate::new(t[2].parse().unwrap(), t[3].parse().unwrap())], id: t[1].parse().unwrap() }),
+            "X" => {
+                extended = true;
+                let v: Vec<i32> = t[2..].iter().map(|x| x.parse().unwrap()).collect();
+                assert!(v.len() >= 2 && v.len() % 2 == 0);
+                elems.push(Multi { sites: v.chunks(2).map(|p| FPCoordinate::new(p[0], p[1])).collect(), id: t[1].parse().unwrap() });
+            }
             _ => panic!("unknown op"),
         }
     }
+    if extended {
+        observe(elems, |e: &Multi| e.id, q, obs);
+    } else {
+        let stock: Vec<(FPCoordinate, PartitionID)> = elems.iter().map(|e| (e.sites[0], PartitionID(e.id))).collect();
+        observe(stock, |e: &(FPCoordinate, PartitionID)| e.1.0, q, obs);
+    }
+}
+
+fn observe<T: RTreeElement + Clone>(elems: Vec<T>, id: impl Fn(&T) -> u32, q: FPCoordinate, obs: &mut Vec<String>) {
     // the true distance of every element: what distance_to returns
-    obs.push(tagged("P dist", elems.iter().map(|e| format!("{}:{}", e.1.0, bits(RTreeElement::distance_to(e, &q))))));
+    obs.push(tagged("P dist", elems.iter().map(|e| format!("{}:{}", id(e), bits(e.distance_to(&q))))));
     // the first step of from_elements, repeated here with the real comparator
     let mut sorted = elems.clone();
     sorted.sort_by(|a, b| zorder_cmp(a.center(), b.center()));
-    obs.push(tagged("F order", sorted.iter().map(|e| e.1.0.to_string())));
+    obs.push(tagged("F order", sorted.iter().map(|e| id(e).to_string())));
 
     let tree = RTree::from_elements(elems.clone());
     let (nodes, ends, leaves) = tree.verif_nodes();
@@ -362,7 +476,7 @@ fn execute(c: &Case, obs: &mut Vec<String>) {
             truncated = true;
             break;
         }
-        seq.push((el.1.0, bits(d)));
+        seq.push((id(&el), bits(d)));
     }
     if truncated {
         obs.push("D runaway".to_string());
